@@ -322,6 +322,14 @@ fn census_item(src: &str, a: &Args, ctx: &Ctx, state: &mut CensusState) -> Resul
                 _ => Ok(format!("psalt={}", hex(&wow_srp::pin::get_pin_salt()))),
             }
         }
+        "seeds_mixed" => {
+            let v = vanilla_header::ProofSeed::new().seed();
+            let t = tbc_header::ProofSeed::new().seed();
+            let w = wrath_header::ProofSeed::new().seed();
+            let p = wow_srp::pin::get_pin_grid_seed();
+            let v2 = vanilla_header::ProofSeed::default().seed();
+            Ok(format!("{}/{}/{}/{}/{}", hex(&v.to_le_bytes()), hex(&t.to_le_bytes()), hex(&w.to_le_bytes()), hex(&p.to_le_bytes()), hex(&v2.to_le_bytes())))
+        }
         "vseed" => Ok(hex(&vanilla_header::ProofSeed::new().seed().to_le_bytes())),
         "tseed" => Ok(hex(&tbc_header::ProofSeed::new().seed().to_le_bytes())),
         "wseed" => Ok(hex(&wrath_header::ProofSeed::new().seed().to_le_bytes())),
@@ -683,6 +691,173 @@ fn run(ctx: &mut Ctx, op: &str, a: &Args) -> Res {
             ctx.store_order.clear();
             Ok(vec![("pending", format!("{}", hook::script_clear()))])
         }
+        "mt_logins" => {
+            // honest library<->library logins on several threads of this process at once; every login is reported as a
+            // transcript (values that left the API + the draws logged on that thread) for the driver's model to judge
+            let n = a.u64("n")? as usize;
+            let threads = a.opt("threads").and_then(|t| t.parse::<usize>().ok()).unwrap_or(4).min(32);
+            let tag = a.u64("tag").unwrap_or(0);
+            let mut handles = Vec::new();
+            for ti in 0..threads {
+                handles.push(std::thread::spawn(move || -> Result<String, String> {
+                    hook::log_enable(true);
+                    let mut out = Vec::with_capacity(n);
+                    let mut x = (tag + 1).wrapping_mul(0x9E37_79B9_7F4A_7C15) ^ ((ti as u64 + 1) << 32);
+                    let mut next = || {
+                        x ^= x << 13;
+                        x ^= x >> 7;
+                        x ^= x << 17;
+                        x
+                    };
+                    for i in 0..n {
+                        // credentials over the printable alphabet, lengths 1..16, typed in another case by the client
+                        let mk = |r: u64, salt: u64| -> String {
+                            let len = 1 + (r % 16) as usize;
+                            let mut s = String::new();
+                            let mut y = r ^ salt;
+                            for _ in 0..len {
+                                y = y.wrapping_mul(6364136223846793005).wrapping_add(1442695040888963407);
+                                s.push((0x20 + ((y >> 33) % 95) as u8) as char);
+                            }
+                            s
+                        };
+                        if ti % 2 == 1 && i % 3 == 0 {
+                            // a client session under another announced group on this thread, concurrently with the logins of the other threads
+                            let mut n2 = [0xffu8; 32];
+                            n2[0] = 0xed;
+                            n2[31] = 0x7f; // 2^255 - 19
+                            if let Ok(pk) = PublicKey::from_le_bytes([9u8; 32]) {
+                                let o = SrpClientChallenge::new(
+                                    NormalizedString::new("OTHER").map_err(|e| e.to_string())?,
+                                    NormalizedString::new("GROUP").map_err(|e| e.to_string())?,
+                                    2,
+                                    n2,
+                                    pk,
+                                    [i as u8; 32],
+                                );
+                                let _ = o.client_public_key();
+                            }
+                            hook::log_take();
+                        }
+                        let user = mk(next(), 1);
+                        let pw = mk(next(), 2);
+                        let un = NormalizedString::new(&user).map_err(|e| e.to_string())?;
+                        let pn = NormalizedString::new(&pw).map_err(|e| e.to_string())?;
+                        hook::log_take();
+                        let ver = SrpVerifier::from_username_and_password(un.clone(), pn.clone());
+                        let d_salt = hook::log_take();
+                        let v = *ver.password_verifier();
+                        let salt = *ver.salt();
+                        let ver = if i % 2 == 0 {
+                            SrpVerifier::from_database_values(NormalizedString::new(ver.username()).map_err(|e| e.to_string())?, v, salt)
+                        } else {
+                            ver
+                        };
+                        let proof = ver.into_proof();
+                        let d_b = hook::log_take();
+                        let b_pub = *proof.server_public_key();
+                        let pk = PublicKey::from_le_bytes(b_pub).map_err(|e| format!("own B invalid: {}", e))?;
+                        let cu = NormalizedString::new(user.to_ascii_lowercase()).map_err(|e| e.to_string())?;
+                        let cp = NormalizedString::new(pw.to_ascii_uppercase()).map_err(|e| e.to_string())?;
+                        let chal = SrpClientChallenge::new(cu, cp, wow_srp::GENERATOR, wow_srp::LARGE_SAFE_PRIME_LITTLE_ENDIAN, pk, salt);
+                        let d_a = hook::log_take();
+                        let a_pub = *chal.client_public_key();
+                        let m1 = *chal.client_proof();
+                        let apk = PublicKey::from_le_bytes(a_pub).map_err(|e| format!("own A invalid: {}", e))?;
+                        let j = |d: &Vec<Vec<u8>>| d.iter().map(|x| hex(x)).collect::<Vec<_>>().join("+");
+                        let mut t = format!(
+                            "u={};p={};salt={};ds={};v={};B={};db={};A={};da={};M1={}",
+                            hex(user.as_bytes()), hex(pw.as_bytes()), hex(&salt), j(&d_salt), hex(&v), hex(&b_pub), j(&d_b), hex(&a_pub), j(&d_a), hex(&m1)
+                        );
+                        match proof.into_server(apk, m1) {
+                            Ok((server, m2)) => {
+                                t.push_str(&format!(";srv=ok;M2={};Ks={}", hex(&m2), hex(server.session_key())));
+                                match chal.verify_server_proof(m2) {
+                                    Ok(cl) => t.push_str(&format!(";cli=ok;Kc={}", hex(cl.session_key()))),
+                                    Err(e) => t.push_str(&format!(";cli=err;cp={};sp={}", hex(&e.client_proof), hex(&e.server_proof))),
+                                }
+                            }
+                            Err(e) => t.push_str(&format!(";srv=err;cp={};sp={}", hex(&e.client_proof), hex(&e.server_proof))),
+                        }
+                        hook::log_take();
+                        out.push(t);
+                    }
+                    Ok(out.join(","))
+                }));
+            }
+            let mut f = Vec::new();
+            const NAMES: [&str; 32] = [
+                "t0", "t1", "t2", "t3", "t4", "t5", "t6", "t7", "t8", "t9", "t10", "t11", "t12", "t13", "t14", "t15", "t16", "t17",
+                "t18", "t19", "t20", "t21", "t22", "t23", "t24", "t25", "t26", "t27", "t28", "t29", "t30", "t31",
+            ];
+            for (i, h) in handles.into_iter().enumerate() {
+                match h.join() {
+                    Ok(Ok(s)) => f.push((NAMES[i], s)),
+                    Ok(Err(e)) => return Err(Reply::Err(vec![("stage", "mt".into()), ("msg", e.replace('\t', " "))])),
+                    Err(_) => {
+                        return Err(Reply::Err(vec![("stage", "mt_panic".into()), ("msg", "a login thread panicked".to_string())]));
+                    }
+                }
+            }
+            Ok(f)
+        }
+        "noise" => {
+            // calls of OTHER modules / entry points, including failing ones, on this thread (their results are not judged here;
+            // they must not influence what is judged)
+            let k = a.u64("k").unwrap_or(0);
+            let mut x = k.wrapping_mul(0x9E37_79B9_7F4A_7C15) | 1;
+            let mut nx = || {
+                x ^= x << 13;
+                x ^= x >> 7;
+                x ^= x << 17;
+                x
+            };
+            for _ in 0..(1 + k % 3) {
+                match nx() % 9 {
+                    0 => {
+                        let _ = wow_srp::pin::calculate_hash((nx() % 1000) as u32, nx() as u32, &[1u8; 16], &[2u8; 16]);
+                    }
+                    1 => {
+                        let _ = wow_srp::pin::verify_client_pin_hash(1000 + (nx() % 100000) as u32, nx() as u32, &[3u8; 16], &[4u8; 16], &[0u8; 20]);
+                    }
+                    2 => {
+                        let _ = NormalizedString::new("bad\tname");
+                        let _ = NormalizedString::new("waytoolongcredentialstring");
+                    }
+                    3 => {
+                        let _ = NormalizedString::new("Other`Name");
+                    }
+                    4 => {
+                        let _ = PublicKey::from_le_bytes([0u8; 32]);
+                        let _ = PublicKey::from_le_bytes(wow_srp::LARGE_SAFE_PRIME_LITTLE_ENDIAN);
+                    }
+                    5 => {
+                        let _ = wow_srp::integrity::login_integrity_check_generic(&[7u8; 70], &[1u8; 16], &[9u8; 32]);
+                        let _ = wow_srp::integrity::reconnect_integrity_check(&[5u8; 16]);
+                    }
+                    6 => {
+                        let n = NormalizedString::new("NOISE").unwrap();
+                        let s = vanilla_header::ProofSeed::new();
+                        let _ = s.into_server_header_crypto(&n, [nx() as u8; 40], [0u8; 20], 1);
+                        let t = tbc_header::ProofSeed::new();
+                        let (_, mut c) = t.into_client_header_crypto(&n, [nx() as u8; 40], 7);
+                        let _ = c.encrypt_client_header(4, 0x1dc);
+                    }
+                    7 => {
+                        let n = NormalizedString::new("NOISE2").unwrap();
+                        let w = wrath_header::ProofSeed::new();
+                        let (_, mut c) = w.into_client_header_crypto(&n, [nx() as u8; 40], 9);
+                        let _ = c.encrypt_client_header(6, 0x37);
+                        let _ = c.attempt_decrypt_server_header([0x80, 1, 2, 3]);
+                    }
+                    _ => {
+                        let c = wow_srp::matrix_card::MatrixCard::new(2, 3, 3);
+                        let _ = wow_srp::matrix_card::verify_matrix_card_hash(&c, 2, nx(), &[1u8; 40], &[0u8; 20]);
+                    }
+                }
+            }
+            Ok(vec![])
+        }
         "census" => {
             let src = a.s("src")?.to_string();
             let n = a.u64("n")? as usize;
@@ -794,10 +969,32 @@ fn main() {
         let args = Args { m };
         let id = args.opt("id").and_then(|s| s.parse::<u64>().ok());
         hook::log_take();
-        let r = catch_unwind(AssertUnwindSafe(|| run(&mut ctx, op, &args)));
-        let draws = hook::log_take();
+        let (r, draws) = if args.flag("nt") {
+            // the call runs on a freshly spawned thread (objects move there and back)
+            let ctx_ref = &mut ctx;
+            let args_ref = &args;
+            std::thread::scope(|sc| {
+                sc.spawn(move || {
+                    hook::log_enable(true);
+                    let r = catch_unwind(AssertUnwindSafe(|| run(ctx_ref, op, args_ref)));
+                    let mut r = r;
+                    if r.is_err() {
+                        // carry the panic text over to the main thread's slot
+                        let msg = LAST_PANIC.with(|p| p.borrow_mut().take()).unwrap_or_else(|| "?".into());
+                        r = Ok(Err(Reply::Err(vec![("panic_on_fresh_thread", msg)])));
+                    }
+                    (r, hook::log_take())
+                })
+                .join()
+                .unwrap_or_else(|_| (Ok(Err(Reply::Err(vec![("panic_on_fresh_thread", "thread died".to_string())]))), Vec::new()))
+            })
+        } else {
+            let r = catch_unwind(AssertUnwindSafe(|| run(&mut ctx, op, &args)));
+            (r, hook::log_take())
+        };
         let (status, fields): (&str, Vec<(&'static str, String)>) = match r {
             Ok(Ok(f)) => ("ok", f),
+            Ok(Err(Reply::Err(f))) if f.first().map(|x| x.0) == Some("panic_on_fresh_thread") => ("panic", vec![("msg", f[0].1.clone())]),
             Ok(Err(Reply::Err(f))) => ("err", f),
             Ok(Err(Reply::Bad(s))) => ("bad", vec![("msg", s.replace(['\n', '\t'], " "))]),
             Err(_) => {
@@ -816,7 +1013,7 @@ fn main() {
             s.push('=');
             s.push_str(v);
             if let Some(id) = id {
-                if (status == "ok" || status == "err") && op != "census" {
+                if (status == "ok" || status == "err") && op != "census" && op != "mt_logins" {
                     if let Ok(b) = unhex(v) {
                         let key = (id, k.to_string());
                         if ctx.store.insert(key.clone(), b).is_none() {
